@@ -268,6 +268,9 @@ def all_jobs():
                       props=['C01', 'C05'], pretty='bloc::%s::value' % cls, canaries=['normal', 'exceptional'], unwind=uw,
                       unwind_why=uw_why,
                       defines=['BUILTIN_FN=' + mg, 'BUILTIN_CLASS=' + cls, 'BUILTIN_NARGS=%d' % nargs] + (['BUILTIN_STR_MAX=%d' % strmax] if strmax else []),
+                      replay=dict(kind='evalnode', headers=['blocc/builtin/builtin_%s.h' % name], mirror_class=cls, children=nargs,
+                                  construct='new bloc::%s(std::vector<bloc::Expression*>{%s})' % (cls, ', '.join('kids[%d]' % i for i in range(nargs))),
+                                  script='%s(%s)' % (name, ', '.join('{%d}' % i for i in range(nargs)))),
                       **({'bounded_inputs': True} if strmax else {}),
                       structs=DEFAULT_STRUCTS + [STD_STRING, VEC_CHAR, 'bloc::Imaginary', 'std::complex<double>', 'bloc::Context', 'bloc::' + cls]))
     return J
